@@ -39,6 +39,26 @@ CLAIMED = {
    ref="5 (C13)"),
 }
 
+CORR_I = " The integrity model (coq/Integrity.v, Sign.v) is evaluated inside Coq on recorded verification/signing cases (oracle tables for envelope opening and JSON parsing computed with go-crypto / sigstore / encoding/json directly) and compared with pkg/integrity on NewVerifier, Verify, every callback report, AnySignedBy/AllSignedBy and the signed bytes; a Go-side oracle written from the property's wording searches the same cases for a concrete failing input."
+NOTE_I = "Trusted: Coq kernel+VM, correspondence harness (key material, oracle tables, error-code mapping) and ExecI.v; cryptography and JSON are parameters of the model (nothing assumed; collision-freedom appears as an explicit disjunct). The Go code is modelled, not verified."
+CLAIMED.update({
+ "C04": dict(
+   text="Proof: for every byte string LoadContainer accepts, every current-format request and any behaviour of the cryptographic parameters: if Verify returns nil then every reported result belongs to a signature attached to a requested group that was opened under the supplied keys, and for whoever computed the opened metadata from an image, launch script/magic/version/ID and, per verified object, type, used flag, relative ID, link, size, creation time, uid, gid, name, extra and content coincide - or two distinct inputs with equal digest are exhibited; the integrity streams are proved to determine exactly those fields (injectivity of the stream encodings), and the field lists/digest table/hash allow-list/payload type extracted from the source on every run are proved equal to the model's." + CORR_I + " Cases: every single-bit flip of one base image per run (all of them in thorough) against the protected-view oracle, sampled flips of every region and a field-rewrite/swap/splice catalogue through model and oracle, for 7 base images (PGP, DSSE with RSA/ECDSA/Ed25519, one and two groups, co-signed, object subsets).",
+   note=NOTE_I, ref="5 (C04)"),
+ "C05": dict(
+   text="Proof: if default NewVerifier/Verify returns nil then every live object outside all groups is a signature, at least one group exists, and every group present has at least one current-format signature, every such signature (none skipped) opened under the supplied keys, names exactly the current members (both inclusions) and matches header, descriptors and contents; stated also as refusals (ungrouped object, unsigned group, uncovered member, missing signed object, no groups). The clause 'removing a signed object makes verification fail' is refuted by an evaluated witness for the removal of a whole group (known finding F6)." + CORR_I + " Cases: API-level edits after signing (add to a signed group / new group / no group, delete, set-metadata, delete group, delete signatures) and a descriptor-table catalogue (used flag, ID, group, link, type of every slot, duplicated/retargeted signatures, pairs), judged by a specification-side re-implementation of the property's wording.",
+   note=NOTE_I, ref="5 (C05)"),
+ "C07": dict(
+   text="Proof: a nil Verify examined every signature attached to every requested task (none skipped), each of a recognised format and of a scheme for which key material was supplied, each opened by the opener under the supplied keys; the keys/entity reported for a result are exactly what the opener returned, DSSE identities come only from the DSSE opener and PGP identities only from the clear-sign opener, and a PGP signature's descriptor names that same entity." + CORR_I + " Cases: (signing set, trusted set) pairs over 7 DSSE keys (RSA/ECDSA/Ed25519) and 3 PGP entities incl. disjoint/overlapping/superset/empty/nil, every kind of fingerprint value in the descriptor, both schemes on one group with key material for one, foreign payload types made by the trusted key, unrecognised formats; reported signers are compared with an independent re-opening of each signature with every key the harness has.",
+   note=NOTE_I + " What 'valid under a key' means is go-crypto's and sigstore's answer (oracle tables), not modelled.", ref="5 (C07)"),
+ "C16": dict(
+   text="Proof: group tasks examine only signatures of the requested kind; a legacy task never accepts a signature whose payload is JSON; an accepted legacy signature was opened under the supplied keys with the descriptor naming the signer, and the named object's content is byte for byte what the signed digest is of (or a collision is exhibited); for groups only the concatenation is covered (partial) and the per-object statement is refuted: the verdict is proved to depend on the concatenation alone (known finding F9)." + CORR_I + " Cases: the 6 shipped legacy images and generated ones (hand-made clear-signed SIFHASH messages on groups and objects, alone and mixed with current signatures) under 8 request modes, with bit flips, catalogue edits and boundary shifts under each accepting legacy mode.",
+   note=NOTE_I, ref="5 (C16)"),
+ "C17": dict(
+   text="Proof: AnySignedBy/AllSignedBy return a strictly sorted, duplicate-free list containing exactly the fingerprints recorded on the signatures attached to some / to every selected task (tasks without signatures contribute nothing), without touching the image; after a successful Verify a fingerprint recorded on a clear-signed signature is that of the entity whose supplied key validated it (partial); for DSSE signatures the statement is refuted by an evaluated witness (known finding F10)." + CORR_I + " Cases: generated multi-group images with 0-3 PGP signers per group, DSSE and legacy signatures mixed in, forged fingerprints, under default / group / object / legacy selections, compared with a specification-side computation of union and intersection.",
+   note=NOTE_I, ref="5 (C17)"),
+})
+
 REASON_PENDING = "check not yet built in this revision (model exists; theorem file and families pending) - see DESIGN.md section 10"
 
 def main():
